@@ -280,8 +280,11 @@ def routes_for(kind, label, text, password=None, generated=None, cert_file=None,
             except Exception:  # from_path needs what cryptography can parse; not every file qualifies
                 pass
     pub = loaded.asbytes()
-    out.append(("public-bytes:data", cls(data=pub)))
-    out.append(("public-bytes:msg", cls(msg=Message(pub))))
+    for rname, build in (("public-bytes:data", lambda: cls(data=pub)), ("public-bytes:msg", lambda: cls(msg=Message(pub)))):
+        try:
+            out.append((rname, build()))
+        except Exception as e:  # noqa: BLE001 - reported by the caller as a failed construction route
+            route_failures.append((kind, label, "%s from the key's own asbytes() %s" % (rname, pub.hex()), e))
     try:
         out.append(("public-bytes:from_type_string", paramiko.PKey.from_type_string(loaded.get_name(), pub)))
     except Exception as e:  # noqa: BLE001 - reported by the caller as a failed construction route
@@ -292,6 +295,31 @@ def routes_for(kind, label, text, password=None, generated=None, cert_file=None,
         out.append(("private-file+cert", c))
         out.append(("public-bytes:cert-blob", cls(data=c.public_blob.key_blob)))
     return out
+
+
+_boundary = {}
+
+
+def boundary_ec_keys(bits, limit=3000):
+    """cryptography EC private keys (derived from small scalars, scanned at run time) whose public x or y coordinate
+    has 1, 2, 3 … leading zero BYTES in the fixed-width encoding: {(coordinate, k): (scalar, key)}.  Fixed-width
+    padding of such coordinates is exactly where a point encoder goes wrong."""
+    if (bits, limit) in _boundary:
+        return _boundary[(bits, limit)]
+    from cryptography.hazmat.primitives.asymmetric import ec
+
+    curve = {256: ec.SECP256R1, 384: ec.SECP384R1, 521: ec.SECP521R1}[bits]()
+    size = (bits + 7) // 8
+    found = {}
+    for scalar in range(1, limit + 1):
+        key = ec.derive_private_key(scalar, curve)
+        nums = key.public_key().public_numbers()
+        for cname, v in (("x", nums.x), ("y", nums.y)):
+            zeros = size - (v.bit_length() + 7) // 8
+            for k in range(1, min(zeros, 3) + 1):
+                found.setdefault((cname, k), (scalar, key))
+    _boundary[(bits, limit)] = found
+    return found
 
 
 def guarded(ctx, stream):
